@@ -287,12 +287,15 @@ class World:
             c.add(self.val(op[3]))
             return None
         alias = len(op) > 4 and op[4] == 'alias'     # the argument is the collection itself
+        live = self.objs[op[5]].eGet(self.feat(op[2]).name) if (len(op) > 5 and op[4] == 'from') else None
         if k in ('extend', 'update'):
-            getattr(c, k)(c if alias else [self.val(v) for v in op[3]])
+            getattr(c, k)(c if alias else (live if live is not None else [self.val(v) for v in op[3]]))
             return None
         if k == 'iadd':
             if alias:
                 c += c
+            elif live is not None:
+                c += live
             else:
                 c += [self.val(v) for v in op[3]]
             return None
